@@ -104,6 +104,10 @@ def c03_projection_order():
     return _differs('f::{(100*x)+(10*y)+z};p::f(7;;);q::p(;2);q(3)', ("i", 732))
 
 
+def c03_dotf_locals():
+    return _differs('{[a];a::x;:[x>0;.f(x-1);0];a}(3)', ("i", 3))
+
+
 def c04_module_cache():
     """the second evaluation of the text '.module(:m)' in one session must select module m like the first"""
     try:
@@ -324,7 +328,7 @@ PROBES = {
     "C01/min-nested": c01_min_nested, "C01/remainder-nested": c01_rem_nested, "C01/take-matrix-overshoot": c01_take_matrix,
     "C01/group-order": c01_group_order, "C01/match-integers-with-tolerance": c01_match_int,
     "C02/over-single-char-string": c02_over_char,
-    "C03/projection-of-projection-hole-order": c03_projection_order,
+    "C03/projection-of-projection-hole-order": c03_projection_order, "C03/dot-f-loses-locals": c03_dotf_locals,
     "C04/parse-cache-skips-module-switch": c04_module_cache,
     "C05/compiled-code-run-on-other-kinds": c05_compiled_kinds, "C05/compiled-reduce-scan-shortcuts": c05_reduce_scan,
     "C05/compiled-power-kind": c05_power_kind, "C05/compiled-divide-numpy-scalar-zero": c05_divide_numpy_zero,
